@@ -318,6 +318,9 @@ def programs_part(chk, cfg, tier):
         if r.get("crash") or r.get("timeout") or not r["ok"]:
             if (r.get("diff") or "").startswith("harness:"):
                 raise HarnessError("c17compile: " + r["diff"])
+            if r.get("timeout"):
+                # 240 s without an answer for one source: an overloaded machine, not a verdict
+                raise HarnessError("c17compile: no result for %s within the deadline" % pid)
             chk.evaluations += 1
             chk.mismatch("prog/%s;crash-in-parse-or-compile" % origin,
                          "compiler crash: " + (r.get("diff") or "")[:1500], {"case": {"id": pid, "src": src[:20000], "stage": "c17compile"}, "result": r})
@@ -454,7 +457,7 @@ def programs_part(chk, cfg, tier):
 
     stats["distinct_codes_checked_by_tlc"] = len(tlc_items)
     stats["accepted_by_vmstack"] = accepted
-    chk.extra["programs"] = stats
+    chk.extra["program_counts"] = stats
     chk.extra["vm_runs"] = ran
     # samples
     for pid in list(sums)[:1] + [p for p in sums if p.startswith("gen:")][:1] + fallback[:1]:
@@ -492,7 +495,11 @@ def run(chk):
                 "ALL paths by TLC (Go transcription only for code longer than %d bytes), VM step trace checked against the "
                 "state graph; non-trivial = distinct code with >= 1 jump or >= 1 local-variable access, or a history with a LOCAL symbol"
                 % (cfg["symlen"], cfg["maxtlc"]))
-    chk.exhaustive = True
+    # complete for the Symtab histories and for the control-flow paths of each program; the
+    # program corpus itself is a (fixed + seeded) sample of an infinite space
+    chk.exhaustive = False
+    chk.extra["explanation"] = ("exhaustive parts: every Symtab history up to the bound (TLC), every control-flow path of every "
+                                "emitted program (TLC work-list until the seen-map saturates); sampled part: the program corpus")
     chk.assumptions += [
         "Symtab.tla is written from the doc comments of pkg/bytecode/symbol.go; exact slot numbers are documented there "
         "(index inherited from the outer scope, 0 below the global scope); LocalCount is only required to be >= 1 + the "
